@@ -633,6 +633,21 @@ def run(ctx):
         ctx.count('line_level_schedules', n)
         ctx.extra['statement_level_bounded']['+'.join(causes)] = {
             'schedules': n, 'complete': complete}
+    if ctx.tier != 'quick':
+        # thorough: statement level with at most two pre-emptions, without a
+        # bystander (two threads inside one manager method at once)
+        ctx.extra['statement_level_bounded_2'] = {}
+        for i, causes in enumerate(pairs):
+            if i % ctx.nshards != ctx.shard and ctx.nshards > 1:
+                continue
+            if ctx.out_of_time() or ctx.time_left() < ctx.budget * 0.5:
+                break
+            n, complete = explore_dfs(ctx, list(causes), 2, base, 6000,
+                                      line_level=True, bystander=False)
+            ctx.count('statement_level_bounded_schedules', n)
+            ctx.count('line_level_schedules', n)
+            ctx.extra['statement_level_bounded_2']['+'.join(causes)] = {
+                'schedules': n, 'complete': complete}
     # a first batch of seeded random statement-level schedules (windows that
     # need two threads inside one manager method at once, i.e. two or more
     # pre-emptions at statement level)
